@@ -280,11 +280,16 @@ fn run_c16(eng: &Engine, a: &Args) {
     let n = if a.tier == Tier::Quick { 300 } else { 4000 };
     let tier = a.tier;
     eng.explore("opreturn-text", scaled(n, a), move || c16_strategy(tier), check_c16);
+    // more than 4 MB of lines in one run (60 000 outputs with 60..75-byte payloads), whole and as a range: a run's
+    // output is not bounded by any buffer size, and log lines must not cut into data lines
+    let scripts: Vec<Vec<u8>> = (0..60_000usize).map(|i| { let n = 60 + i % 16; let mut s = vec![0x6a, n as u8]; s.extend((0..n).map(|k| b'a' + ((i + k * 7) % 26) as u8)); s }).collect();
+    let mk = |coin, range| SCase { coin, scripts: scripts.clone(), per_tx: 5, txs_per_block: 250, range, verbose: 0, base: 0, cb_every: 0, tty: false };
+    eng.enumerate("more-than-4MB-of-lines", vec![mk(Coin::Bitcoin, None), mk(Coin::Litecoin, Some((20_000u16, 30_000u16)))], check_c16);
 }
 
 fn replay_c16(part: &str, case: serde_json::Value) -> Option<Verdict> {
     match part {
-        "opreturn-text" => Some(check_c16(&serde_json::from_value(case).ok()?)),
+        "opreturn-text" | "more-than-4MB-of-lines" => Some(check_c16(&serde_json::from_value(case).ok()?)),
         _ => None,
     }
 }
